@@ -49,6 +49,25 @@ def lineCrypto (dec : Py (Option Bytes)) (digest : Bytes) : Crypto where
 def showKeys (k : BeaconKeys) : String :=
   s!"{showBytes k.aes_key} {showBytes k.hmac_key} {showBytes k.iv}"
 
+/-- `enc`: the model's `encrypt_metadata` under the toy primitives of modulus length `k`:
+blob length, `metadata.size` afterwards, plaintext handed to RSA. -/
+def encAns (k : Nat) (m : Metadata) : String :=
+  let c := toyCrypto k
+  match encryptMetadata c m [], sized m with
+  | .ok blob, .ok m' =>
+    match c.rsaDec blob with
+    | .ok (some pt) => s!"ok {blob.length} {m'.size} {showBytes pt}"
+    | _ => "model-error toy decrypt failed"
+  | .error e, _ => "exc " ++ e.name
+  | .ok _, .error e => "exc " ++ e.name
+
+/-- `rt`: `decrypt_metadata(encrypt_metadata(m))` under the toy primitives. -/
+def rtAns (k : Nat) (m : Metadata) : String :=
+  let c := toyCrypto k
+  match encryptMetadata c m [] with
+  | .ok blob => showPy showMeta (decryptMetadata c blob)
+  | .error e => "exc " ++ e.name
+
 def step : List String → String
   | "dumps" :: rest =>
     match metaToks rest with
@@ -60,15 +79,7 @@ def step : List String → String
     | none => "bad-op"
   | "enc" :: _key :: k :: rest =>
     match natTok k, metaToks rest with
-    | some k, some m =>
-      let c := toyCrypto k
-      match encryptMetadata c m [], sized m with
-      | .ok blob, .ok m' =>
-        match c.rsaDec blob with
-        | .ok (some pt) => s!"ok {blob.length} {m'.size} {showBytes pt}"
-        | _ => "model-error toy decrypt failed"
-      | .error e, _ => "exc " ++ e.name
-      | .ok _, .error e => "exc " ++ e.name
+    | some k, some m => encAns k m
     | _, _ => "bad-op"
   | ["dec", _key, blob, prim] =>
     match bytesTok blob, primTok prim with
@@ -76,11 +87,7 @@ def step : List String → String
     | _, _ => "bad-op"
   | "rt" :: _key :: k :: rest =>
     match natTok k, metaToks rest with
-    | some k, some m =>
-      let c := toyCrypto k
-      match encryptMetadata c m [] with
-      | .ok blob => showPy showMeta (decryptMetadata c blob)
-      | .error e => "exc " ++ e.name
+    | some k, some m => rtAns k m
     | _, _ => "bad-op"
   | ["derive", r, iv, digest] =>
     match bytesTok r, optTok bytesTok iv, bytesTok digest with
@@ -99,5 +106,80 @@ def step : List String → String
       s!"{showBytes a} {showBytes h} {showKeys k1} {showKeys k2}"
     | _, _, _ => "bad-op"
   | _ => "bad-op"
+
+/-! ### histories: several calls in one line, separated by a `|` token
+
+The library functions are modelled as pure functions, so the expected answer of every step is the
+stateless single-call answer (`step`).  The only state is the *caller's* metadata object, which
+`encrypt_metadata` mutates (`metadata.size = len(metadata) - 8`):
+  `new M17` creates it, `set <field> <value>` assigns an attribute, `show` prints it,
+  `eo <key> <k>` / `ro <key> <k>` are `enc` / `rt` on that same object. -/
+
+def splitBar (ws : List String) : List (List String) :=
+  ws.foldr (fun w acc =>
+    if w == "|" then [] :: acc
+    else match acc with
+      | cur :: rest => (w :: cur) :: rest
+      | [] => [[w]]) [[]]
+
+def setField (m : Metadata) (name v : String) : Option Metadata :=
+  if name == "aes_rand" then (bytesTok v).map fun b => { m with aes_rand := b }
+  else if name == "info" then (bytesTok v).map fun b => { m with info := b }
+  else (natTok v).bind fun n =>
+    if name == "magic" then some { m with magic := n }
+    else if name == "size" then some { m with size := n }
+    else if name == "ansi_cp" then some { m with ansi_cp := n }
+    else if name == "oem_cp" then some { m with oem_cp := n }
+    else if name == "bid" then some { m with bid := n }
+    else if name == "pid" then some { m with pid := n }
+    else if name == "port" then some { m with port := n }
+    else if name == "flag" then some { m with flag := n }
+    else if name == "ver_major" then some { m with ver_major := n }
+    else if name == "ver_minor" then some { m with ver_minor := n }
+    else if name == "ver_build" then some { m with ver_build := n }
+    else if name == "ptr_x64" then some { m with ptr_x64 := n }
+    else if name == "ptr_gmh" then some { m with ptr_gmh := n }
+    else if name == "ptr_gpa" then some { m with ptr_gpa := n }
+    else if name == "ip" then some { m with ip := n }
+    else none
+
+/-- the caller's object after `encrypt_metadata(obj, …)`: size assigned unless `len(obj)` raised -/
+def afterEncrypt (m : Metadata) : Metadata :=
+  match sized m with
+  | .ok m' => m'
+  | .error _ => m
+
+def histStep (cur : Option Metadata) (ws : List String) : String × Option Metadata :=
+  match ws, cur with
+  | "new" :: rest, _ =>
+    match metaToks rest with
+    | some m => ("ok", some m)
+    | none => ("bad-op", cur)
+  | ["set", name, v], some m =>
+    match setField m name v with
+    | some m' => ("ok", some m')
+    | none => ("bad-op", cur)
+  | ["show"], some m => ("ok " ++ showMeta m, cur)
+  | ["eo", _key, k], some m =>
+    match natTok k with
+    | some k => (encAns k m, some (afterEncrypt m))
+    | none => ("bad-op", cur)
+  | ["ro", _key, k], some m =>
+    match natTok k with
+    | some k => (rtAns k m, some (afterEncrypt m))
+    | none => ("bad-op", cur)
+  | ws, _ => (step ws, cur)
+
+def runHist : Option Metadata → List (List String) → List String
+  | _, [] => []
+  | cur, ws :: rest =>
+    let (a, cur') := histStep cur ws
+    a :: runHist cur' rest
+
+def top : List String → String
+  | "hist" :: rest =>
+    let answers := runHist none (splitBar rest)
+    if answers.isEmpty || answers.any (· == "bad-op") then "bad-op" else " | ".intercalate answers
+  | ws => step ws
 
 end C06
